@@ -96,8 +96,9 @@ def run(out, tier, rng, work):
         out.broken.append('item correspondence %s did not evaluate: %s' % (e[0], e[1][-200:]))
     for m in mism[:20]:
         out.broken.append('correspondence %s: model and implementation differ on input %s (impl %s)' % (m[0], m[1][:14], m[2][:14]))
-    import dm14srv
+    import dm14srv, dm14cli
     dm14srv.stage(out, tier, rng, work, C)
+    dm14cli.stage(out, tier, rng, work, C)
     worst = {}
     runs = [(nm, sc) for nm, sc in sprop.load_corpus('C18')] + [('gen-%d' % k, gen(rng, k)) for k in range(120 if tier == 'quick' else 2500)]
     for nm, sc in runs:
